@@ -223,3 +223,188 @@ theorem refineV_refine (l : List (Option Nat)) : refineV (l.map encOpt) = .ok (e
         simp [hc', encSus]
 
 end Chartparse.Tie
+
+namespace Chartparse.Tie
+open Chartparse Chartparse.PyImp
+
+/-! ### `complex_sustain_from_parsed_datas` -/
+
+def OPEN : Val := .obj "NoteTrackIndex" (.field "name" (.str [80]) (.field "value" (.int 7) .fnil))
+
+theorem compM_mem (c : Val → M Bool) (e : Val → M Val) (p : Val → Bool) (q : Val → Val) :
+    ∀ xs : List Val, (∀ x ∈ xs, c x = .ok (p x) ∧ e x = .ok (q x)) → compM c e xs = .ok ((xs.filter p).map q) := by
+  intro xs
+  induction xs with
+  | nil => intro _; rfl
+  | cons x xs ih =>
+    intro h
+    obtain ⟨hc, he⟩ := h x (by simp)
+    have := ih (fun y hy => h y (by simp [hy]))
+    simp only [compM, hc, he, this, bind, Except.bind, List.filter_cons]
+    cases p x <;> simp
+
+/-- the per-lane list: every 5-note line writes its length into its lane's slot (an index outside the list would be an `IndexError`) -/
+def fillV (idx : Val → Int) (sus : Val → Val) : List Val → List Val → M (List Val)
+  | [], acc => .ok acc
+  | d :: ds, acc => match normIdx (idx d) acc.length with
+    | some j => fillV idx sus ds (acc.set j (sus d))
+    | none => .error (.internal "IndexError")
+
+def csEnv (D : Val) (d : Option Val) (l : List Val) : Env := [("datas", some D), ("d", d), ("sustain_list", some (.list (Val.ofList l)))]
+
+def csBody : Stmt := (.setIdx "sustain_list" (.attr (.attr (.var "d") "note_track_index") "value") (.attr (.var "d") "sustain"))
+
+theorem csLoop (ext : Ext) (nti : Val → Val) (idx : Val → Int) (sus : Val → Val) (D : Val) :
+    ∀ (xs : List Val), (∀ x ∈ xs, attrVal x "note_track_index" = .ok (nti x) ∧ attrVal (nti x) "value" = .ok (.int (idx x)) ∧ attrVal x "sustain" = .ok (sus x)) →
+    ∀ (d0 : Option Val) (acc : List Val),
+      match fillV idx sus xs acc with
+      | .ok out => ∃ d', Runs ext (.forVals "d" (Val.ofList xs) csBody .skip) (csEnv D d0 acc) (.norm (csEnv D d' out))
+      | .error err => ∃ env', Runs ext (.forVals "d" (Val.ofList xs) csBody .skip) (csEnv D d0 acc) (.exc err env') := by
+  intro xs
+  induction xs with
+  | nil => intro _ d0 acc; exact ⟨d0, by simpa [fillV, Val.ofList] using Runs.forVals_nil (Runs.skip ext _)⟩
+  | cons x xs ih =>
+    intro h d0 acc
+    obtain ⟨h1, h2, h3⟩ := h x (by simp)
+    have hset : setVar (csEnv D d0 acc) "d" x = csEnv D (some x) acc := by simp [csEnv, setVar]
+    simp only [fillV, Val.ofList]
+    have hi : evalExpr ext (csEnv D (some x) acc) (.attr (.attr (.var "d") "note_track_index") "value") = .ok (.int (idx x)) := by
+      simp [evalExpr, csEnv, lookup, bind, Except.bind, h1, h2]
+    have hv : evalExpr ext (csEnv D (some x) acc) (.attr (.var "d") "sustain") = .ok (sus x) := by
+      simp [evalExpr, csEnv, lookup, bind, Except.bind, h3]
+    cases hj : normIdx (idx x) acc.length with
+    | none =>
+      exact ⟨_, Runs.forVals_exit (by
+        rw [hset]
+        exact Runs.setIdx_err (err := .internal "IndexError") (by rw [hv, hi]; simp [csEnv, lookup, bind, Except.bind, setAt, hj])) (Or.inr ⟨_, _, rfl⟩)⟩
+    | some j =>
+      have hb : Runs ext csBody (csEnv D (some x) acc) (.norm (csEnv D (some x) (acc.set j (sus x)))) := by
+        have := Runs.setIdx (ext := ext) (x := "sustain_list") (i := .attr (.attr (.var "d") "note_track_index") "value") (e := .attr (.var "d") "sustain")
+          (env := csEnv D (some x) acc) (nl := .list (Val.ofList (acc.set j (sus x))))
+          (by rw [hv, hi]; simp [csEnv, lookup, bind, Except.bind, setAt, hj])
+        simpa [csEnv, setVar, csBody] using this
+      have h2' := ih (fun y hy => h y (by simp [hy])) (some x) (acc.set j (sus x))
+      simp only []
+      cases hf : fillV idx sus xs (acc.set j (sus x)) with
+      | error err =>
+        rw [hf] at h2'
+        obtain ⟨env', h2'⟩ := h2'
+        exact ⟨env', Runs.forVals_step (Or.inl (by rw [hset]; exact hb)) h2'⟩
+      | ok out =>
+        rw [hf] at h2'
+        obtain ⟨d', h2'⟩ := h2'
+        exact ⟨d', Runs.forVals_step (Or.inl (by rw [hset]; exact hb)) h2'⟩
+
+/-- the function's answer -/
+def complexV (ext : Ext) (nti : Val → Val) (is5 : Val → Bool) (idx : Val → Int) (sus : Val → Val) (ds : List Val) : M Val :=
+  match ds with
+  | [] => .error (.internal "IndexError")
+  | d0 :: _ =>
+    if nti d0 == OPEN then .ok (sus d0)
+    else fillV idx sus (ds.filter fun d => is5 (nti d)) [.none, .none, .none, .none, .none] >>= fun l =>
+      ext "_refined_sustain_tuple" [.tup (Val.ofList l)]
+
+theorem complexSustain_tie (ext : Ext) (nti : Val → Val) (is5 : Val → Bool) (idx : Val → Int) (sus : Val → Val) (ds : List Val)
+    (h : ∀ x ∈ ds, attrVal x "note_track_index" = .ok (nti x) ∧ attrVal (nti x) "value" = .ok (.int (idx x)) ∧ attrVal x "sustain" = .ok (sus x))
+    (h5 : ∀ v, ext ".is_5_note" [v] = .ok (.bool (is5 v))) :
+    Returns ext Gen.Imp.complexSustain (initEnv [("datas", .list (Val.ofList ds))] Gen.Imp.complexSustainLocals)
+      (complexV ext nti is5 idx sus ds) := by
+  have h0 : initEnv [("datas", .list (Val.ofList ds))] Gen.Imp.complexSustainLocals
+      = [("datas", some (.list (Val.ofList ds))), ("d", none), ("sustain_list", none)] := by
+    simp [initEnv, Gen.Imp.complexSustainLocals]
+  rw [h0]
+  unfold Gen.Imp.complexSustain complexV
+  cases ds with
+  | nil =>
+    have hidx0 : indexVal (.list (Val.ofList [])) (.int 0) = .error (.internal "IndexError") := indexVal_list_oob [] 0 (by simp)
+    exact ⟨_, Runs.seq_stop (Runs.ite_err (err := .internal "IndexError") (by
+      simp [evalExpr, lookup, bind, Except.bind, hidx0])) (by intro e; simp)⟩
+  | cons d0 rest =>
+    obtain ⟨g1, g2, g3⟩ := h d0 (by simp)
+    have hidx : indexVal (.list (Val.ofList (d0 :: rest))) (.int 0) = .ok d0 := indexVal_list_nat (d0 :: rest) 0 (by simp)
+    have hc : evalExpr ext [("datas", some (.list (Val.ofList (d0 :: rest)))), ("d", none), ("sustain_list", none)]
+        (.cmp .eq (.attr (.index (.var "datas") (.lit (.int 0))) "note_track_index") (.lit OPEN)) >>= truth = .ok (nti d0 == OPEN) := by
+      simp [evalExpr, lookup, bind, Except.bind, hidx, g1]
+    simp only []
+    by_cases ho : (nti d0 == OPEN) = true
+    · simp only [ho, if_true, Returns]
+      exact Or.inl (Runs.seq_stop (Runs.ite_true (by rw [show OPEN = Val.obj "NoteTrackIndex" (.field "name" (.str [80]) (.field "value" (.int 7) .fnil)) from rfl] at hc ho; rw [hc, ho])
+        (Runs.ret (by simp [evalExpr, lookup, bind, Except.bind, hidx, g3]))) (by intro e; simp))
+    · have ho' : (nti d0 == OPEN) = false := by simpa using ho
+      simp only [ho', Bool.false_eq_true, if_false]
+      have s1 : Runs ext (.ite (.cmp .eq (.attr (.index (.var "datas") (.lit (.int 0))) "note_track_index") (.lit OPEN))
+          (.ret (.attr (.index (.var "datas") (.lit (.int 0))) "sustain")) .skip)
+          [("datas", some (.list (Val.ofList (d0 :: rest)))), ("d", none), ("sustain_list", none)]
+          (.norm [("datas", some (.list (Val.ofList (d0 :: rest)))), ("d", none), ("sustain_list", none)]) :=
+        Runs.ite_false (by rw [hc, ho']) (Runs.skip _ _)
+      have s2 : Runs ext (.assign "sustain_list" (.bin .mul (.mkList (.econs (.lit .none) .enil)) (.lit (.int 5))))
+          [("datas", some (.list (Val.ofList (d0 :: rest)))), ("d", none), ("sustain_list", none)]
+          (.norm (csEnv (.list (Val.ofList (d0 :: rest))) none [.none, .none, .none, .none, .none])) := by
+        have := Runs.assign (ext := ext) (x := "sustain_list") (e := .bin .mul (.mkList (.econs (.lit .none) .enil)) (.lit (.int 5)))
+          (v := .list (Val.ofList [.none, .none, .none, .none, .none]))
+          (env := [("datas", some (.list (Val.ofList (d0 :: rest)))), ("d", none), ("sustain_list", none)])
+          (by simp [evalExpr, bind, Except.bind, evalBin, Val.toList?, List.replicate, Val.ofList])
+        simpa [setVar, csEnv] using this
+      have hcomp : evalExpr ext (csEnv (.list (Val.ofList (d0 :: rest))) none [.none, .none, .none, .none, .none])
+          (.comp "d" (.var "datas") (.call ".is_5_note" (.econs (.attr (.var "d") "note_track_index") .enil)) (.var "d"))
+          = .ok (.list (Val.ofList ((d0 :: rest).filter fun d => is5 (nti d)))) := by
+        have hm := compM_mem
+          (fun x => evalExpr ext (setVar (csEnv (.list (Val.ofList (d0 :: rest))) none [.none, .none, .none, .none, .none]) "d" x)
+            (.call ".is_5_note" (.econs (.attr (.var "d") "note_track_index") .enil)) >>= truth)
+          (fun x => evalExpr ext (setVar (csEnv (.list (Val.ofList (d0 :: rest))) none [.none, .none, .none, .none, .none]) "d" x) (.var "d"))
+          (fun d => is5 (nti d)) (fun d => d) (d0 :: rest) (by
+            intro x hx
+            obtain ⟨a1, _, _⟩ := h x hx
+            constructor
+            · simp [evalExpr, lookup_setVar_self, bind, Except.bind, a1, Val.toList?, h5]
+            · simp [evalExpr, lookup_setVar_self])
+        have hd : evalExpr ext (csEnv (.list (Val.ofList (d0 :: rest))) none [.none, .none, .none, .none, .none]) (.var "datas")
+            = .ok (.list (Val.ofList (d0 :: rest))) := by simp [evalExpr, csEnv, lookup]
+        rw [evalExpr, hd]
+        simp only [bind, Except.bind, seqOf_list] at hm ⊢
+        rw [hm]
+        simp
+      have hfill := csLoop ext nti idx sus (.list (Val.ofList (d0 :: rest))) ((d0 :: rest).filter fun d => is5 (nti d))
+        (fun x hx => h x (List.mem_filter.mp hx).1) none [.none, .none, .none, .none, .none]
+      cases hf : fillV idx sus ((d0 :: rest).filter fun d => is5 (nti d)) [.none, .none, .none, .none, .none] with
+      | error err =>
+        rw [hf] at hfill
+        obtain ⟨env', hfill⟩ := hfill
+        exact ⟨env', Runs.seq s1 (Runs.seq s2 (Runs.seq_stop (Runs.forIn_list hcomp hfill) (by intro e; simp)))⟩
+      | ok out =>
+        rw [hf] at hfill
+        obtain ⟨d', hfill⟩ := hfill
+        have hcall : evalExpr ext (csEnv (.list (Val.ofList (d0 :: rest))) d' out) (.call "_refined_sustain_tuple" (.econs (.toTup (.var "sustain_list")) .enil))
+            = ext "_refined_sustain_tuple" [.tup (Val.ofList out)] := by
+          simp [evalExpr, csEnv, lookup, bind, Except.bind, Val.toList?]
+        simp only [bind, Except.bind]
+        exact Returns.seq_norm s1 (Returns.seq_norm s2 (Returns.seq_norm (Runs.forIn_list hcomp hfill) (Returns.ret_of _ hcall)))
+
+end Chartparse.Tie
+
+namespace Chartparse.Tie
+open Chartparse Chartparse.PyImp
+
+/-- the per-lane list the dumped loop builds is the hand model's `Inst.fill` (5-note lines only; each writes its own slot) -/
+theorem fillV_fill (enc : Inst.NDatum → Val) (idx : Val → Int) (sus : Val → Val) (hidx : ∀ d, idx (enc d) = d.idx)
+    (hsus : ∀ d, sus (enc d) = .int d.sus) :
+    ∀ (g : List Inst.NDatum) (acc : List (Option Nat)), acc.length = 5 →
+      fillV idx sus ((g.filter fun d => decide (d.idx ≤ 4)).map enc) (acc.map encOpt) =
+        .ok ((g.foldl (fun a d => if d.idx ≤ 4 then a.set d.idx (some d.sus) else a) acc).map encOpt) := by
+  intro g
+  induction g with
+  | nil => intro acc _; simp [fillV]
+  | cons d g ih =>
+    intro acc hlen
+    by_cases h4 : d.idx ≤ 4
+    · have hn : normIdx ((d.idx : Nat) : Int) (acc.map encOpt).length = some d.idx := by
+        rw [List.length_map, hlen]; exact normIdx_nat d.idx 5 (by omega)
+      simp only [List.filter_cons, h4, decide_true, if_true, List.map_cons, fillV, hidx, hn, hsus, List.foldl_cons]
+      have hset : (acc.map encOpt).set d.idx (Val.int d.sus) = (acc.set d.idx (some d.sus)).map encOpt := by
+        rw [List.map_set]; rfl
+      rw [hset]
+      exact ih _ (by simp [hlen])
+    · simp only [List.filter_cons, h4, decide_false, Bool.false_eq_true, if_false, List.foldl_cons]
+      exact ih acc hlen
+
+end Chartparse.Tie
